@@ -169,6 +169,25 @@ class RecipeGen {
 		add(s);
 	}
 
+	// Pattern seed: a conditionally assigned bit that is afterwards used (only) as a condition of IF / ELSE IF chains
+	// (removeIrrelevantMuxes must not confuse the selector input of a later mux with a masking data input)
+	void patternCondVar() {
+		Step v{.kind = "cond", .width = 0, .a = pickBit()};
+		v.list = {-1, genCond(), -4, rng.chance(1, 2) ? genCond() : pickBit(), -3};
+		int vi = add(v);
+		int other = rng.chance(1, 2) ? vi : genCond();
+		bool isBit = rng.chance(1, 3); size_t cw = isBit ? 0 : w(pickVec());
+		Step s{.kind = "cond", .width = cw, .a = valueOf(cw)};
+		bool guarded = rng.chance(1, 2);
+		if (guarded) { s.list.push_back(-1); s.list.push_back(genCond()); }
+		// IF (v) t = a; ELSE { IF (other) t = b; [ELSE t = c;] }
+		s.list.insert(s.list.end(), {-1, vi, -4, valueOf(cw), -2, -1, other, -4, valueOf(cw)});
+		if (rng.chance(1, 2)) s.list.insert(s.list.end(), {-2, -4, valueOf(cw)});
+		s.list.push_back(-3); s.list.push_back(-3);
+		if (guarded) s.list.push_back(-3);
+		add(s);
+	}
+
 public:
 	RecipeGen(Rng &rng, GenOpts o) : rng(rng), o(o) {}
 
@@ -181,16 +200,21 @@ public:
 		}
 		if (vecs.empty()) add(Step{.kind = "in", .width = genWidth()});
 		for (size_t n = 0; n < o.nSteps; n++) {
-			if (o.conds && rng.chance(o.patternBias, 100)) { if (rng.chance(2, 3)) patternCondFamily(); else patternCompareChain(); continue; }
+			if (o.conds && rng.chance(o.patternBias, 100)) { unsigned pk = (unsigned) rng.below(4); if (pk < 2) patternCondFamily(); else if (pk == 2) patternCompareChain(); else patternCondVar(); continue; }
 			unsigned c = (unsigned) rng.below(100);
 			if (c < 14) { // arithmetic / bitwise on equal widths
 				int a = pickVec(); int b = vecOfWidth(w(a));
 				static const char *ops[] = {"add", "sub", "mul", "and", "or", "xor", "div", "rem"};
 				Step s{.kind = ops[rng.below((!o.fullyDefined && rng.chance(1, 6)) ? 8 : 6)], .width = w(a), .a = a, .b = b}; add(s);
 			} else if (c < 18) { Step s{.kind = "vnot", .width = w(vecs.back()), .a = pickVec()}; s.width = w(s.a); add(s);
-			} else if (c < 26) { // bit logic
-				static const char *ops[] = {"band", "bor", "bxor"};
-				Step s{.kind = ops[rng.below(3)], .width = 0, .a = pickBit(), .b = pickBit()}; add(s);
+			} else if (c < 26) { // bit logic, incl. comparisons of bits with each other and with constants on either side
+				static const char *ops[] = {"band", "bor", "bxor", "beq", "bne"};
+				Step s{.kind = ops[rng.below(5)], .width = 0, .a = pickBit(), .b = pickBit()};
+				if (s.kind[1] != 'a' && s.kind[1] != 'o' && s.kind[1] != 'x' && rng.chance(1, 2)) { // beq / bne: one operand constant
+					Step k{.kind = "bconst", .width = 0, .str = rng.chance(1, 2) ? "1" : "0"}; int ki = add(k);
+					if (rng.chance(1, 2)) s.a = ki; else s.b = ki;
+				}
+				add(s);
 			} else if (c < 30) { Step s{.kind = "not", .width = 0, .a = pickBit()}; add(s);
 			} else if (c < 38) { // compare
 				int a = pickVec(); int b = vecOfWidth(w(a));
@@ -311,6 +335,8 @@ inline Built build(const Recipe &r, const Decoration &deco = {}) {
 		else if (k == "bor") vals[i] = Bit(bit(s.a) | bit(s.b));
 		else if (k == "bxor") vals[i] = Bit(bit(s.a) ^ bit(s.b));
 		else if (k == "not") vals[i] = Bit(!bit(s.a));
+		else if (k == "beq") vals[i] = Bit(bit(s.a) == bit(s.b));
+		else if (k == "bne") vals[i] = Bit(bit(s.a) != bit(s.b));
 		else if (k == "eq") vals[i] = Bit(vec(s.a) == vec(s.b));
 		else if (k == "ne") vals[i] = Bit(vec(s.a) != vec(s.b));
 		else if (k == "lt") vals[i] = Bit(vec(s.a) < vec(s.b));
